@@ -27,13 +27,13 @@ pub fn def() -> PropDef {
     PropDef {
         id: "C06",
         level: "fault_enumeration",
-        rule: "every history of <= d operations over {insert a/ab/a\\xff, delete prefix a/'', remote older, remote newer, flush, snapshot-read} on a file-backed store; a baseline run numbers every store access point (hook at Store::tables/modify); then every placement of <= k 'transaction looks older than the commit delay' answers among the points where a write transaction is open, and in every such run a crash image (copy of the database file, live store untouched) at every access point and after every operation; each distinct image is reopened and must show the reference state after j complete operations with last-acknowledged-flush <= j <= operations-started, with records, by-key index, heads, point lookups, namespaces and authors mutually consistent; non-trivial = distinct (image content, window) pairs whose window spans an unacknowledged or in-progress operation",
+        rule: "every history of <= d operations over {insert a/ab/a\\xff, delete prefix a/'', remote older, remote newer, flush, snapshot-read, remove document, re-create document} on a file-backed store; a baseline run numbers every store access point (hook at Store::tables/modify); then every placement of <= k 'transaction looks older than the commit delay' answers among the points where a write transaction is open, and in every such run a crash image (copy of the database file, live store untouched) at every access point and after every operation; each distinct image is reopened and must show the reference state after j complete operations with last-acknowledged-flush <= j <= operations-started, with records, by-key index, heads, point lookups, namespaces and authors mutually consistent; non-trivial = distinct (image content, window) pairs whose window spans an unacknowledged or in-progress operation",
         assumptions: &[
             "crash = process kill: the image is what the OS holds for the file at that instant; power loss, torn sectors and crashes inside redb's own commit are redb's contract",
             "an extra age-based commit caused by real elapsed time can only move the recovered state forward inside the accepted window, never raise an alarm",
         ],
         bound: |t| match t {
-            Tier::Quick => json!({"histories": "depth <= 4 over 9 operations with <= 1 forced-old answer; depth <= 3 with <= 2", "forced_old_answers": "<= 2"}),
+            Tier::Quick => json!({"histories": "depth <= 4 over 11 operations with <= 1 forced-old answer; depth <= 3 with <= 2", "forced_old_answers": "<= 2"}),
             Tier::Thorough => json!({"histories": "depth <= 5 with <= 1 forced-old answer; depth <= 4 with <= 2", "forced_old_answers": "<= 2"}),
         },
         run,
@@ -53,9 +53,13 @@ pub enum Op {
     RemoteNewer,
     Flush,
     SnapshotRead,
+    /// remove the document (it is never open between operations)
+    RemoveDoc,
+    /// import the write capability again
+    Recreate,
 }
 
-const OPS: [Op; 9] = [
+const OPS: [Op; 11] = [
     Op::InsA,
     Op::InsAb,
     Op::InsAff,
@@ -65,6 +69,8 @@ const OPS: [Op; 9] = [
     Op::RemoteNewer,
     Op::Flush,
     Op::SnapshotRead,
+    Op::RemoveDoc,
+    Op::Recreate,
 ];
 
 fn remote_entry(newer: bool) -> SignedEntry {
@@ -127,8 +133,8 @@ struct RunResult {
     points: u64,
     write_open: Vec<bool>,
     images: Vec<([u8; 32], usize, usize, u64)>,
-    /// model state after j complete operations
-    states: Vec<ModelReplica>,
+    /// model state after j complete operations: (document exists, entries)
+    states: Vec<(bool, ModelReplica)>,
     final_dump_ok: Option<String>,
 }
 
@@ -170,7 +176,8 @@ fn run_history(hist: &[Op], forced: &BTreeSet<u64>, dir: &Path) -> RunResult {
         })));
     }
     let mut model = ModelReplica::default();
-    let mut states = vec![model.clone()];
+    let mut exists = true;
+    let mut states = vec![(exists, model.clone())];
     for (i, op) in hist.iter().enumerate() {
         shared.lock().unwrap().ops_started = i + 1;
         let ts = T0 + 10 + i as u64;
@@ -181,12 +188,16 @@ fn run_history(hist: &[Op], forced: &BTreeSet<u64>, dir: &Path) -> RunResult {
                 let (key, val) = (e.key().to_vec(), Val::of(&e).unwrap());
                 let _ = sut.local_insert(ns, &author(0), &key, val);
                 set_clock(NOW);
-                model.put(&e);
+                if exists {
+                    model.put(&e);
+                }
             }
             Op::RemoteOlder | Op::RemoteNewer => {
                 let e = remote_entry(matches!(op, Op::RemoteNewer));
                 let _ = sut.remote(ns, e.clone());
-                model.put(&e);
+                if exists {
+                    model.put(&e);
+                }
             }
             Op::Flush => {
                 sut.store.flush().expect("flush");
@@ -194,8 +205,19 @@ fn run_history(hist: &[Op], forced: &BTreeSet<u64>, dir: &Path) -> RunResult {
             Op::SnapshotRead => {
                 let _ = sut.store.get_many(ns, iroh_docs::store::Query::all()).map(|i| i.count());
             }
+            Op::RemoveDoc => {
+                let _ = sut.store.remove_replica(&ns);
+                exists = false;
+                model = ModelReplica::default();
+            }
+            Op::Recreate => {
+                let _ = sut
+                    .store
+                    .import_namespace(iroh_docs::Capability::Write(ns_secret(0)));
+                exists = true;
+            }
         }
-        states.push(model.clone());
+        states.push((exists, model.clone()));
         let mut s = shared.lock().unwrap();
         s.ops_done = i + 1;
         if matches!(op, Op::Flush | Op::SnapshotRead) {
@@ -207,7 +229,12 @@ fn run_history(hist: &[Op], forced: &BTreeSet<u64>, dir: &Path) -> RunResult {
     shared.lock().unwrap().enabled = false;
     iroh_docs::verif::set_store_access_callback(None);
     let live = sut.dump(ns);
-    let final_dump_ok = (live != model.dump()).then(|| {
+    let live_exists = sut
+        .store
+        .list_namespaces()
+        .map(|i| i.count() == 1)
+        .unwrap_or(false);
+    let final_dump_ok = (live != model.dump() || live_exists != exists).then(|| {
         format!(
             "live store {} vs model {}",
             show_entries(&live),
@@ -230,6 +257,7 @@ fn run_history(hist: &[Op], forced: &BTreeSet<u64>, dir: &Path) -> RunResult {
 #[derive(Debug, Clone)]
 struct Recovered {
     open_error: Option<String>,
+    exists: bool,
     dump: Vec<SignedEntry>,
     inconsistencies: Vec<String>,
 }
@@ -242,6 +270,7 @@ fn recover(image: &Path, dir: &Path) -> Recovered {
         Err(e) => {
             return Recovered {
                 open_error: Some(format!("{e:#}")),
+                exists: false,
                 dump: vec![],
                 inconsistencies: vec![],
             }
@@ -287,8 +316,16 @@ fn recover(image: &Path, dir: &Path) -> Recovered {
         .expect("list")
         .map(|r| r.expect("ns").0)
         .collect();
-    if nss != vec![ns] {
-        inc.push(format!("namespaces listed: {}", nss.len()));
+    let exists = nss == vec![ns];
+    if !exists && !nss.is_empty() {
+        inc.push(format!("foreign namespaces listed: {}", nss.len()));
+    }
+    if !exists && (!dump.is_empty() || !heads.is_empty()) {
+        inc.push(format!(
+            "the document is not listed but {} entries and {} heads of it are readable",
+            dump.len(),
+            heads.len()
+        ));
     }
     let authors = sut.store.list_authors().expect("authors").count();
     if authors != 1 {
@@ -298,6 +335,7 @@ fn recover(image: &Path, dir: &Path) -> Recovered {
     let _ = std::fs::remove_file(&copy);
     Recovered {
         open_error: None,
+        exists,
         dump,
         inconsistencies: inc,
     }
@@ -341,18 +379,20 @@ fn evaluate(
             ));
             continue;
         }
-        let ok = (*lo..=*hi).any(|j| rr.states[j].dump() == rec.dump);
+        let same = |j: usize| rr.states[j].0 == rec.exists && rr.states[j].1.dump() == rec.dump;
+        let ok = (*lo..=*hi).any(same);
         if !ok {
             // which operation was in progress
             let in_progress = hist.get(hi.saturating_sub(1)).copied();
-            let older_than_flush = (0..*lo).any(|j| rr.states[j].dump() == rec.dump);
+            let older_than_flush = (0..*lo).any(same);
             bad.push((
                 "image_is_operation_boundary_state",
-                json!({"forced": forced.len(), "operation_in_progress": format!("{in_progress:?}"), "older_than_last_flush": older_than_flush, "matches_no_boundary_state": !rr.states.iter().any(|s| s.dump() == rec.dump)}),
+                json!({"forced": forced.len(), "operation_in_progress": format!("{in_progress:?}"), "older_than_last_flush": older_than_flush, "matches_no_boundary_state": !(0..rr.states.len()).any(same)}),
                 format!(
-                    "image {at} (window {lo}..={hi}) holds {} which is none of the states after {lo}..={hi} operations: {:?}",
+                    "image {at} (window {lo}..={hi}) shows document listed={} with {} which is none of the states after {lo}..={hi} operations: {:?}",
+                    rec.exists,
                     show_entries(&rec.dump),
-                    (*lo..=*hi).map(|j| show_entries(&rr.states[j].dump())).collect::<Vec<_>>()
+                    (*lo..=*hi).map(|j| format!("listed={} {}", rr.states[j].0, show_entries(&rr.states[j].1.dump()))).collect::<Vec<_>>()
                 ),
             ));
         }
